@@ -67,7 +67,7 @@ static int long_digit_run (const uint8_t *d, size_t n)
 	size_t i, run = 0;
 	for (i = 0; i < n; i++)
 	{
-		if (d[i] >= '0' && d[i] <= '9') { if (++run > 40) return 1; }
+		if (d[i] >= '0' && d[i] <= '9') { if (++run > 18) return 1; }
 		else run = 0;
 	}
 	return 0;
@@ -219,7 +219,7 @@ int LLVMFuzzerTestOneInput (const uint8_t *data, size_t size)
 		p = mpq_QSget_prob (rd, "fuzz", (sel & 3) == 1 ? "MPS" : "LP");
 		if (p)
 		{
-			check_problem (p, (sel & 16) && !long_digit_run (data, size));
+			check_problem (p, (sel & 16) && size < 3000 && !long_digit_run (data, size));
 			mpq_QSfree_prob (p);
 		}
 		mpq_QSline_reader_free (rd);
